@@ -166,12 +166,40 @@ class Interp:
                 return [[k, v] for k, v in b.items()]
             return Unknown("items() on non-literal")
         callee = self.ev(f, env, fn)
-        args = [self.ev(a, env, fn) for a in c.args]
-        kws = {k.arg: self.ev(k.value, env, fn) for k in c.keywords if k.arg is not None}
-        if any(k.arg is None for k in c.keywords) or any(isinstance(a, ast.Starred) for a in c.args):
-            if self._mentions_registration(c):
+        args = []
+        kws = collections.OrderedDict()
+        star_unknown = False
+        for a in c.args:
+            if isinstance(a, ast.Starred):
+                v = self.ev(a.value, env, fn)
+                if isinstance(v, list):
+                    args.extend(v)  # f(*[a, b]) == f(a, b)
+                else:
+                    star_unknown = True
+            else:
+                args.append(self.ev(a, env, fn))
+        for k in c.keywords:
+            if k.arg is None:
+                v = self.ev(k.value, env, fn)
+                if isinstance(v, dict) and all(isinstance(x, str) for x in v):
+                    kws.update(v)  # f(**{"a": 1}) == f(a=1)
+                else:
+                    star_unknown = True
+            else:
+                kws[k.arg] = self.ev(k.value, env, fn)
+        if star_unknown:
+            if self._mentions_registration(c) or self._touches_db(c, env):
                 raise AnalysisError("%s:%d: star-arguments at a registration call" % (fn.path, c.lineno))
             return Unknown("star call")
+        if isinstance(f, ast.Name) and f.id in ("dict", "list", "tuple") and f.id not in env:
+            if f.id == "dict" and not args:
+                return collections.OrderedDict(kws)
+            if f.id in ("list", "tuple") and len(args) == 1 and isinstance(args[0], list) and not kws:
+                return list(args[0])
+            if f.id in ("list", "tuple") and not args and not kws:
+                return []
+        if isinstance(f, ast.Attribute) and f.attr in REG_METHODS and not (isinstance(callee, tuple) and callee and callee[0] == "bound"):
+            raise AnalysisError("%s:%d: registration call `%s` on a receiver that is not the database being filled" % (fn.path, c.lineno, ast.unparse(f)[:60]))
         if isinstance(callee, ClassRef):
             if callee.name == "UnitDatabase" or "UnitDatabase" in self.m.mro(callee.name):
                 return DbRef()
@@ -197,6 +225,12 @@ class Interp:
                 pos = params[1:]
         else:
             pos = params
+        ta = target.node.args
+        if ta.vararg is not None:
+            npos = len(ta.posonlyargs) + len(ta.args) - (len(params) - len(pos))
+            pos = pos[:npos]
+            bound[ta.vararg.arg] = list(args[npos:])
+            args = args[:npos]
         for i, a in enumerate(args):
             if i >= len(pos):
                 raise AnalysisError("%s:%d: too many positional arguments for %s" % (fn.path, c.lineno, target.qual))
@@ -219,9 +253,9 @@ class Interp:
             if any(v is None for v in vals):
                 raise AnalysisError("%s:%d: missing coefficient for %s" % (fn.path, c.lineno, target.name))
             return Closure(target, vals, c, fn.path)
-        # another filler: inline it
-        if self.reaches_registration(target):
-            return self.run(target, bound)
+        # another filler, or any helper that is handed the database (or a bound registration method): run it
+        if self.reaches_registration(target) or any(self._is_db(v) for v in bound.values()) or (target.parent is not None and any(self._is_db(v) for v in env.values())):
+            return self.run(target, bound, outer=env if target.parent is not None else None)
         # a small pure helper whose body is one return expression (e.g. a local `pair(a, b, c, d)` building both closures)
         body = [st for st in target.node.body if not (isinstance(st, ast.Expr) and isinstance(st.value, ast.Constant))]
         if len(body) == 1 and isinstance(body[0], ast.Return) and body[0].value is not None and self.depth < 12:
@@ -232,7 +266,36 @@ class Interp:
                 return self.ev(body[0].value, henv, target)
             finally:
                 self.depth -= 1
+        # any other small helper of the table module: interpret its body (pure: nothing of the database flows in)
+        if target.path == fn.path and self.depth < 8 and sum(1 for _ in ast.walk(target.node)) < 400:
+            return self.run(target, bound, outer=env if target.parent is not None else None)
         return Unknown("call of %s" % target.qual)
+
+    def _is_db(self, v):
+        if isinstance(v, DbRef):
+            return True
+        if isinstance(v, tuple) and len(v) == 3 and v[0] == "bound" and isinstance(v[1], DbRef):
+            return True
+        if isinstance(v, list):
+            return any(self._is_db(x) for x in v)
+        if isinstance(v, dict):
+            return any(self._is_db(x) for x in v.values())
+        return False
+
+    def _touches_db(self, node, env):
+        """Does the statement / expression mention a local that holds the database or one of its bound
+        registration methods (an alias like `add = db.AddUnit`), or a local function that does?"""
+        for n in ast.walk(node):
+            if isinstance(n, ast.Name) and n.id in env:
+                v = env[n.id]
+                if self._is_db(v):
+                    return True
+                if isinstance(v, FuncRef) and (self.reaches_registration(v.fn) or v.fn.parent is not None and any(self._is_db(x) for x in env.values()) and self._uses_free_db(v.fn, env)):
+                    return True
+        return False
+
+    def _uses_free_db(self, g, env):
+        return any(isinstance(n, ast.Name) and n.id in env and self._is_db(env[n.id]) for n in ast.walk(g.node))
 
     # ---------------------------------------------------------------- classification helpers
     _factory_cache = None
@@ -286,11 +349,11 @@ class Interp:
         return any(isinstance(n, ast.Attribute) and n.attr in REG_METHODS for n in ast.walk(node))
 
     # ---------------------------------------------------------------- running a filler
-    def run(self, fn, bound):
+    def run(self, fn, bound, outer=None):
         self.depth += 1
         if self.depth > 8:
             raise AnalysisError("filler inlining too deep at %s" % fn.qual)
-        env = {}
+        env = dict(outer) if outer else {}
         a = fn.node.args
         names = [x.arg for x in a.posonlyargs + a.args]
         defaults = dict(zip(names[len(names) - len(a.defaults):], a.defaults))
@@ -326,7 +389,7 @@ class Interp:
             elif isinstance(st, ast.If):
                 t = self.ev(st.test, env, fn)
                 if isinstance(t, Unknown) or not isinstance(t, (bool, type(None), Num, str, list, dict)):
-                    if self._mentions_registration(st):
+                    if self._mentions_registration(st) or self._touches_db(st, env):
                         raise AnalysisError("%s:%d: cannot decide the condition `%s` guarding registration calls" % (fn.path, st.lineno, ast.unparse(st.test)[:60]))
                     continue
                 truth = bool(t.value) if isinstance(t, Num) else bool(t)
@@ -336,7 +399,7 @@ class Interp:
             elif isinstance(st, ast.For):
                 it = self.ev(st.iter, env, fn)
                 if not isinstance(it, list):
-                    if self._mentions_registration(st):
+                    if self._mentions_registration(st) or self._touches_db(st, env):
                         raise AnalysisError("%s:%d: cannot unroll loop over `%s` containing registration calls" % (fn.path, st.lineno, ast.unparse(st.iter)[:60]))
                     continue
                 for item in it:
@@ -363,7 +426,7 @@ class Interp:
                         env[st.name] = FuncRef(sub)
                 continue
             else:
-                if self._mentions_registration(st):
+                if self._mentions_registration(st) or self._touches_db(st, env):
                     raise AnalysisError("%s:%d: statement kind %s around registration calls is not interpreted" % (fn.path, st.lineno, type(st).__name__))
         return None
 
